@@ -21,6 +21,15 @@
 //               (same payload / neighbour / wrap-alias or sibling kind); both directions of equals() are judged, and every
 //               integer operand is read through two different integer getters chosen by the input, each call inside its
 //               own one-test fixture.
+// After the pair judgement every operand is additionally READ BACK (bytes at the end of the input, so older corpus files
+// keep their meaning): getType() and toString() of both operands are compared with an independent rendering of the stored
+// value (decimal + hex for integers, true/false, the string itself, 0x<address>, %.6g, "Size = n | HexContents = ..",
+// the comparator's text or the "No comparator found" text), and one typed read chosen by the input runs inside a
+// fixture: the getter(s) of the stored kind (getBoolValue, getDoubleValue + getDoubleTolerance, getStringValue,
+// getPointerValue, getConstPointerValue, getFunctionPointerValue, getMemoryBuffer + getSize, getObjectPointer +
+// getConstObjectPointer) must return exactly what was stored; a getter of another kind (typed getter on another kind,
+// integer getter on a non-integer, typed getter on an integer) must fail the test (a void* / const void* cross read may
+// instead return the identical address) - never a value of another type.
 // Oracle: __int128 equality for integer pairs; identity / content rules for the other kinds; receiver's tolerance for
 //         doubles (literal rule: NaN -> unequal, same value -> equal, else |a-b| <= tol); receiver's comparator for custom
 //         objects; different type names with at most one integer operand -> false.  Getters: failure recorded, or the
@@ -152,6 +161,7 @@ struct Val {
     int otype = 0, oidx = 0; bool repo_on = true;
     // recycled operand: earlier values set on the same MockNamedValue object (the judged value is this descriptor, set last)
     std::vector<std::unique_ptr<Val>> history;
+    bool store_neighbours_ok = true;
     bool via_store = false;      // history executed through mock().setData* on one name, value fetched with getData
     // materialised
     MockNamedValue* mv = nullptr;
@@ -175,6 +185,7 @@ struct Val {
         default: return p + std::string(KNAME[kind]) + ":" + i2s(iv);
         }
     }
+    const char* stored_ptr() const { return ext ? ext : buf; }   // what was handed to setValue(const char*) / setMemoryBuffer
     const char* cstr() {   // exact-size private copy: ASan sees over-reads
         if (ext) return ext;
         if (!is_null && !buf) { buf = (char*)malloc(bytes.size() + 1); memcpy(buf, bytes.c_str(), bytes.size() + 1); }
@@ -232,9 +243,22 @@ struct Val {
             else if (prefill == 2) mv->setValue(bits2d(0xFFF7A5A5A5A5A5A5ULL), bits2d(0x7FF0000000000001ULL));
             apply(*mv);
         } else if (via_store) {
+            // decoys around the slot (a longer name first, a prefix of the name last): the lookup by name has to walk the
+            // list and match the whole name; a decoy coming back is caught by the type / text / equality judgements
+            std::string longer = std::string(slot) + "-decoy", prefix = std::string(slot).substr(0, strlen(slot) - 1);
+            mock().setData(longer.c_str(), "decoy value");
             for (auto& h : history) h->store_set(slot);
+            mock().setData(prefix.c_str(), "decoy value");
             store_set(slot);
+            mock().setData((prefix + "?").c_str(), 24242);
             mv = new MockNamedValue(mock().getData(slot));
+            {   // the neighbours must still hold their own values (a lookup that matches a wrong name writes into them)
+                MockNamedValue d1 = mock().getData(longer.c_str()), d2 = mock().getData(prefix.c_str()), d3 = mock().getData((prefix + "?").c_str()), d4 = mock().getData((std::string(slot) + "-absent").c_str());
+                store_neighbours_ok = std::string(d1.getType().asCharString()) == "const char*" && std::string(d1.toString().asCharString()) == "decoy value"
+                    && std::string(d2.getType().asCharString()) == "const char*" && std::string(d2.toString().asCharString()) == "decoy value"
+                    && std::string(d3.getType().asCharString()) == "int" && std::string(d3.toString().asCharString()) == "24242 (0x5eb2)"
+                    && std::string(d4.getName().asCharString()).empty();
+            }
             MockNamedValue::setDefaultComparatorsAndCopiersRepository(NULLPTR);
         } else {
             mv = new MockNamedValue("p");
@@ -513,6 +537,137 @@ int judge_equals(const Val& x, const Val& y, bool got, const char* dir) {
     return verif::fail(sig.c_str(), "%s: (%s%s).equals(%s%s) returned %s, expected %s [%s]", dir, x.render().c_str(), x.render_history().c_str(), y.render().c_str(), y.render_history().c_str(), got ? "true" : "false", exp ? "true" : "false", why);
 }
 
+// ---- read-back of non-integer payloads, cross-kind reads, getType, toString ----
+const char* const TYPENAME[K_N] = {"int", "unsigned int", "long int", "unsigned long int", "long long int", "unsigned long long int",
+                                   "bool", "void*", "const void*", "void (*)()", "const char*", "const unsigned char*", "double", "", ""};
+const char* const TGETTER[8] = {"getBoolValue", "getDoubleValue", "getDoubleTolerance", "getStringValue", "getPointerValue",
+                                "getConstPointerValue", "getFunctionPointerValue", "getMemoryBuffer"};
+const int TKIND[8] = {K_BOOL, K_DBL, K_DBL, K_STR, K_PTR, K_CPTR, K_FPTR, K_MEM};
+struct ReadCall { const MockNamedValue* v; int getter; bool returned; bool rb; double rd; const void* rp; Fn rf; };
+void read_body(void* p) {
+    ReadCall* g = (ReadCall*)p;
+    switch (g->getter) {
+    case 0: g->rb = g->v->getBoolValue(); break;
+    case 1: g->rd = g->v->getDoubleValue(); break;
+    case 2: g->rd = g->v->getDoubleTolerance(); break;
+    case 3: g->rp = g->v->getStringValue(); break;
+    case 4: g->rp = g->v->getPointerValue(); break;
+    case 5: g->rp = g->v->getConstPointerValue(); break;
+    case 6: g->rf = g->v->getFunctionPointerValue(); break;
+    default: g->rp = g->v->getMemoryBuffer(); break;
+    }
+    g->returned = true;
+}
+bool same_bits(double a, double b) { return memcmp(&a, &b, sizeof a) == 0; }
+// typed getter `getter` (0..7) on operand v
+int check_typed_read(const Val& v, int getter) {
+    ReadCall g = {v.mv, getter, false, false, 0, nullptr, nullptr};
+    verif::FixtureRun fr = verif::run_in_fixture(read_body, &g);
+    bool same_kind = (v.kind == TKIND[getter]);
+    if (same_kind) {
+        verif::cls(sfmt("read:%s-of-%s:%s", TGETTER[getter] + 3, KNAME[v.kind], fr.failures ? "fails" : "returns").c_str());
+        if (fr.failures || !g.returned)
+            return verif::fail(sfmt("C09:getter-same-type-failed:%s:%s", TGETTER[getter], KNAME[v.kind]).c_str(), "%s() of (%s%s) failed the test: %s", TGETTER[getter], v.render().c_str(), v.render_history().c_str(), fr.output.substr(0, 300).c_str());
+        bool ok = true; std::string got;
+        switch (getter) {
+        case 0: ok = (g.rb == v.b); got = g.rb ? "true" : "false"; break;
+        case 1: ok = same_bits(g.rd, v.d); got = d2s(g.rd); break;
+        case 2: ok = same_bits(g.rd, v.tol); got = d2s(g.rd); break;
+        case 3: ok = (g.rp == (const void*)v.stored_ptr()); got = g.rp ? "another pointer" : "NULL"; break;
+        case 4: case 5: ok = (g.rp == v.addr()); got = g.rp ? "another address" : "NULL"; break;
+        case 6: ok = (g.rf == g_fns[v.pidx]); got = g.rf ? "another function" : "NULL"; break;
+        default: ok = (g.rp == (const void*)v.stored_ptr()); got = g.rp ? "another pointer" : "NULL"; break;
+        }
+        if (!ok)
+            return verif::fail(sfmt("C09:getter-wrong-value:%s:%s", TGETTER[getter], KNAME[v.kind]).c_str(), "%s() of (%s%s) returned %s instead of exactly what was stored", TGETTER[getter], v.render().c_str(), v.render_history().c_str(), got.c_str());
+        return 0;
+    }
+    verif::cls(sfmt("read:cross-kind:%s:%s", TGETTER[getter] + 3, fr.failures ? "fails" : "returns").c_str());
+    if (fr.failures) return 0;
+    // no failure recorded: only the identical address through the sibling void* / const void* getter is "exactly what was stored"
+    if ((getter == 4 || getter == 5) && (v.kind == K_PTR || v.kind == K_CPTR) && g.returned && g.rp == v.addr()) return 0;
+    return verif::fail(sfmt("C09:getter-cross-type-returned:%s:%s", TGETTER[getter], KNAME[v.kind]).c_str(), "%s() of (%s%s) returned a value without failing the test although the stored value has another type", TGETTER[getter], v.render().c_str(), v.render_history().c_str());
+}
+// integer getter on a non-integer operand: there is no integer to return, the test must fail
+int check_integer_getter_on_other_kind(const Val& v, int getter) {
+    GetterCall g = {v.mv, getter, false, 0};
+    verif::FixtureRun fr = verif::run_in_fixture(getter_body, &g);
+    verif::cls(sfmt("read:integer-getter-of-non-integer:%s", fr.failures ? "fails" : "returns").c_str());
+    if (fr.failures) return 0;
+    return verif::fail(sfmt("C09:getter-cross-type-returned:%s:%s", GETTER[getter], KNAME[v.kind]).c_str(), "%s() of (%s%s) returned %s without failing the test although no integer is stored", GETTER[getter], v.render().c_str(), v.render_history().c_str(), i2s(g.result).c_str());
+}
+std::string hexbytes(const std::string& b) { std::string o; for (size_t i = 0; i < b.size(); i++) { if (i) o += " "; o += sfmt("%02X", (unsigned char)b[i]); } return o; }
+bool contains_nocase(const std::string& s, const char* w) { std::string a; for (char c : s) a.push_back((char)tolower((unsigned char)c)); return a.find(w) != std::string::npos; }
+// getType() and toString() against an independent rendering of the stored value
+int check_type_and_text(const Val& v, bool comparator_not_judged) {
+    std::string type = v.mv->getType().asCharString();
+    std::string want_type = (v.kind == K_OBJ || v.kind == K_COBJ) ? std::string(OTYPE[v.otype]) : std::string(TYPENAME[v.kind]);
+    if (type != want_type)
+        return verif::fail(sfmt("C09:type-name-wrong:%s", KNAME[v.kind]).c_str(), "getType() of (%s%s) is \"%s\", expected \"%s\"", v.render().c_str(), v.render_history().c_str(), type.c_str(), want_type.c_str());
+    SimpleString rendered = v.mv->toString();
+    const char* cs = rendered.asCharString();
+    std::string text = cs ? cs : "(NULL)", want; bool ok;
+    switch (v.kind) {
+    case K_INT: want = sfmt("%d (0x%x)", (int)v.iv, (unsigned)(int)v.iv); break;
+    case K_UINT: want = sfmt("%u (0x%x)", (unsigned)v.iv, (unsigned)v.iv); break;
+    case K_LONG: want = sfmt("%ld (0x%lx)", (long)v.iv, (unsigned long)(long)v.iv); break;
+    case K_ULONG: want = sfmt("%lu (0x%lx)", (unsigned long)v.iv, (unsigned long)v.iv); break;
+    case K_LL: want = sfmt("%lld (0x%llx)", (long long)v.iv, (unsigned long long)(long long)v.iv); break;
+    case K_ULL: want = sfmt("%llu (0x%llx)", (unsigned long long)v.iv, (unsigned long long)v.iv); break;
+    case K_BOOL: want = v.b ? "true" : "false"; break;
+    case K_PTR: case K_CPTR: case K_FPTR: want = sfmt("0x%lx", (unsigned long)(uintptr_t)v.addr()); break;
+    case K_STR: want = v.is_null && !v.ext ? std::string() : v.bytes; break;
+    case K_MEM: want = (v.is_null && !v.ext) ? std::string("(null)") : sfmt("Size = %u | HexContents = ", (unsigned)v.bytes.size()) + hexbytes(v.bytes); break;
+    case K_DBL:
+        if (v.d != v.d) { ok = contains_nocase(text, "nan"); want = "(a text naming NaN)"; goto judged; }
+        if (std::isinf(v.d)) { ok = contains_nocase(text, "inf"); want = "(a text naming infinity)"; goto judged; }
+        want = sfmt("%.6g", v.d); break;
+    default:
+        if (comparator_not_judged) return 0;
+        want = v.has_cmp() ? sfmt("%d", g_pool[v.oidx].v) : sfmt("No comparator found for type: \"%s\"", OTYPE[v.otype]); break;
+    }
+    ok = (text == want);
+judged:
+    if (!ok)
+        return verif::fail(sfmt("C09:toString-wrong:%s", KNAME[v.kind == K_COBJ ? K_OBJ : v.kind]).c_str(), "toString() of (%s%s) is \"%s\", expected \"%s\"", v.render().c_str(), v.render_history().c_str(), verif::printable(text).substr(0, 200).c_str(), verif::printable(want).c_str());
+    return 0;
+}
+// the read-back of one operand; `x` is one input byte (0 = the getters of the stored kind)
+int read_back(const Val& v, uint32_t x, bool comparator_not_judged) {
+    if (check_type_and_text(v, comparator_not_judged)) return 1;
+    if (is_int(v.kind)) {   // the integer getters have been swept already; sometimes also a typed getter, which must fail
+        if (x % 16 == 1) return check_typed_read(v, (int)((x / 16) % 8));   // 1 in 16: a fixture with a failing check costs ~100 us
+        return 0;
+    }
+    if (x % 4 != 0) {
+        uint32_t g = (x / 4) % 14;
+        return g < 8 ? check_typed_read(v, (int)g) : check_integer_getter_on_other_kind(v, (int)g - 8);
+    }
+    switch (v.kind) {   // the getter(s) of the stored kind
+    case K_BOOL: return check_typed_read(v, 0);
+    case K_DBL: return check_typed_read(v, 1) || check_typed_read(v, 2);
+    case K_STR: return check_typed_read(v, 3);
+    case K_PTR: return check_typed_read(v, 4);
+    case K_CPTR: return check_typed_read(v, 5);
+    case K_FPTR: return check_typed_read(v, 6);
+    case K_MEM:
+        if (v.mv->getSize() != v.bytes.size())
+            return verif::fail("C09:getter-wrong-value:getSize:membuf", "getSize() of (%s%s) is %zu", v.render().c_str(), v.render_history().c_str(), v.mv->getSize());
+        return check_typed_read(v, 7);
+    default:   // objects: the two unchecked pointer getters return the stored address
+        verif::cls("read:ObjectPointer-of-object");
+        if (!comparator_not_judged) {   // comparator / copier as registered for the type name in the repository installed at set time
+            MockNamedValueComparator* wc = v.has_cmp() ? (v.otype == 0 ? (MockNamedValueComparator*)&g_cmpA : (MockNamedValueComparator*)&g_cmpD) : NULLPTR;
+            MockNamedValueCopier* wp = (v.repo_on && (v.otype == 0 || v.otype == 1)) ? (MockNamedValueCopier*)&g_copier : NULLPTR;
+            if (v.mv->getComparator() != wc || v.mv->getCopier() != wp)
+                return verif::fail("C09:getter-wrong-value:getComparator:object", "getComparator()/getCopier() of (%s%s) are not the ones registered for \"%s\" (%s repository)", v.render().c_str(), v.render_history().c_str(), OTYPE[v.otype], v.repo_on ? "with" : "without");
+        }
+        if (v.mv->getObjectPointer() != (void*)&g_pool[v.oidx] || v.mv->getConstObjectPointer() != (const void*)&g_pool[v.oidx])
+            return verif::fail("C09:getter-wrong-value:getObjectPointer:object", "getObjectPointer()/getConstObjectPointer() of (%s%s) do not return the stored object", v.render().c_str(), v.render_history().c_str());
+        return 0;
+    }
+}
+
 int run_block(uint32_t k) {
     int ta = (int)(k / 6), tb = (int)(k % 6);
     verif::cls(sfmt("exhaustive-block:%s/%s", KNAME[ta], KNAME[tb]).c_str());
@@ -582,6 +737,8 @@ int run_pair(Reader& r, uint32_t mode, bool& nontrivial, std::string& desc) {
         if (a.kind != b.kind && (boundary(a.iv) || boundary(b.iv))) nontrivial = true;
         if (a.iv != b.iv && wrap_to(a.kind, b.iv) == a.iv) verif::cls("integer-pair:wrap-alias");
     }
+    if (!a.store_neighbours_ok || !b.store_neighbours_ok)
+        return verif::fail("C09:data-store-lookup-wrong-entry", "after setting and reading the slot by name, a neighbouring entry of mock()'s data list (a longer name, a prefix of the name, an absent name) no longer holds its own value: %s", desc.c_str());
     if (g_cmp_bad)
         return verif::fail("C09:comparator-called-with-non-object", "%s while comparing %s", g_cmp_bad_msg.c_str(), desc.c_str());
     if (a.object_without_repository_after_comparator() || b.object_without_repository_after_comparator()) {
@@ -608,6 +765,9 @@ int run_pair(Reader& r, uint32_t mode, bool& nontrivial, std::string& desc) {
         desc += sfmt(" %s(%s)", GETTER[g2], v == &a ? "A" : "B");
         if (check_getter(*v->mv, v->kind, v->iv, g2, true)) return 1;
     }
+    // read-back of both operands (bytes at the very end of the input: older inputs select the getters of the stored kind)
+    for (const Val* v : ops)
+        if (read_back(*v, r.u8(), v->object_without_repository_after_comparator())) return 1;
     return 0;
 }
 
